@@ -95,6 +95,9 @@ def generate(seed, tier):
             op['list'] = ro.choice(['L', 'S', 'ONE', 'lit', 'hash1', 'hash2', 'hash1', 'hash2'])
         elif kind == 'shuffle':
             op['list'] = ro.choice(['L', 'S', 'ONE', 'E', 'lit', 'hash1', 'hash2'])
+            if ro.random() < 0.06:
+                op['list'] = ro.choice(['FULL', 'FULL1'])      # a list of exactly 10000 / 9999 elements: legal, and shuffled like any other
+                op['n'] = 2
         elif kind == 'illegal':
             op['what'] = ro.choice(['a_gt_b', 'fraction', 'empty_list', 'three_args', 'string'])
         elif kind == 'no_names':
@@ -122,6 +125,8 @@ def generate(seed, tier):
 
 def execute(case, ctx):
     names = {k: lang.dec_value(v) for k, v in case['world']['names'].items()}
+    names['FULL'] = list(range(10000))
+    names['FULL1'] = list(range(9999))
     from ..seams import make_cache
     parser = boot.fresh_parser(make_cache(case['world'].get('cache')))
     seen_src = set()
